@@ -169,7 +169,7 @@ pub fn generate_c12(thorough: bool, seed: u64, part: (usize, usize), em: &mut Em
     }
 }
 
-fn activate(g: &mut Gen, ops: &mut Vec<String>) { for l in &[0u64, 1, 2, 3, 5] { ops.push(g.letter(*l).0); } }
+fn activate(g: &mut Gen, ops: &mut Vec<String>, hist: &mut Vec<String>) { for l in &[0u64, 1, 2, 3, 5] { let (o, h) = g.letter(*l); ops.push(o); hist.push(h); } }
 
 /// C11: event sequences in the active state, interleaved with server traffic
 pub fn generate_c11(thorough: bool, seed: u64, part: (usize, usize), em: &mut Emitter) {
@@ -177,29 +177,32 @@ pub fn generate_c11(thorough: bool, seed: u64, part: (usize, usize), em: &mut Em
     if part.0 == 0 {
         // exhaustive over buttons x press state x coordinate boundaries, keys x state
         let b = [0u32, 1, 255, 256, 0x7fff, 0x8000, 0xffff];
-        let mut ops = vec![]; { let mut g = Gen { r: &mut r, share: 0x000103ea }; activate(&mut g, &mut ops); }
-        for btn in 0..4 { for down in 0..2 { for &x in &b { for &y in &b { ops.push(format!("P{}:{}:{}:{}", x, y, btn, down)); } } } }
-        for down in 0..2 { for &c in &b { ops.push(format!("K{}:{}", c, down)); } }
-        ops.push("B".into()); ops.push("TB".into());
-        emit(em, 1004, 800, 600, 0x409, "rdp-rs", &ops, None);
+        let (mut ops, mut hist) = (vec![], vec![]);
+        { let mut g = Gen { r: &mut r, share: 0x000103ea }; activate(&mut g, &mut ops, &mut hist); }
+        for btn in 0..4 { for down in 0..2 { for &x in &b { for &y in &b { ops.push(format!("P{}:{}:{}:{}", x, y, btn, down)); hist.push("I".into()); } } } }
+        for down in 0..2 { for &c in &b { ops.push(format!("K{}:{}", c, down)); hist.push("I".into()); } }
+        ops.push("B".into()); hist.push("X".into()); ops.push("TB".into()); hist.push("X".into());
+        emit(em, 1004, 800, 600, 0x409, "rdp-rs", &ops, Some(&hist));
     }
     let n = if thorough { 20000 } else { 1500 };
     for _ in 0..n {
         let (uid, w, h, lay, name) = session_params(&mut r);
         let mut g = Gen { r: &mut r, share: 0x000103ea };
-        let mut ops = vec![];
-        if g.r.chance(9, 10) { activate(&mut g, &mut ops); } else { let k = g.r.below(5); for l in [0u64, 1, 2, 3, 5].iter().take(k as usize) { ops.push(g.letter(*l).0); } }
+        let (mut ops, mut hist) = (vec![], vec![]);
+        if g.r.chance(9, 10) { activate(&mut g, &mut ops, &mut hist); } else { let k = g.r.below(5); for l in [0u64, 1, 2, 3, 5].iter().take(k as usize) { let (o, h) = g.letter(*l); ops.push(o); hist.push(h); } }
         let len = g.r.range(1, 12);
         for _ in 0..len {
-            match g.r.below(8) {
-                0 => ops.push(g.letter(9).0),
-                1 => ops.push(g.letter(6).0),
-                2 => ops.push("B".into()),
-                3 => { let i = g.input(); ops.push(format!("T{}", i)); }
-                _ => { let i = g.input(); ops.push(i); }
+            match g.r.below(9) {
+                0 => { let (o, h) = g.letter(9); ops.push(o); hist.push(h); }
+                1 => { let (o, h) = g.letter(6); ops.push(o); hist.push(h); }
+                2 => { ops.push("B".into()); hist.push("X".into()); }
+                3 => { let i = g.input(); ops.push(format!("T{}", i)); hist.push("J".into()); }
+                4 => { if g.r.chance(1, 4) { // a re-activation with a new share id in the middle
+                         for l in &[8u64, 0, 1, 2, 3, 5] { let (o, h) = g.letter(*l); ops.push(o); hist.push(h); } } else { let i = g.input(); ops.push(i); hist.push("I".into()); } }
+                _ => { let i = g.input(); ops.push(i); hist.push("I".into()); }
             }
         }
-        emit(em, uid, w, h, lay, &name, &ops, None);
+        emit(em, uid, w, h, lay, &name, &ops, Some(&hist));
     }
 }
 
@@ -209,7 +212,7 @@ pub fn generate_c10(thorough: bool, seed: u64, _part: (usize, usize), em: &mut E
     let n = if thorough { 30000 } else { 2500 };
     for _ in 0..n {
         let mut g = Gen { r: &mut r, share: 0x000103ea };
-        let mut ops = vec![]; activate(&mut g, &mut ops);
+        let mut ops = vec![]; let mut hist0 = vec![]; activate(&mut g, &mut ops, &mut hist0);
         let npdu = g.r.range(1, 4);
         for _ in 0..npdu {
             let nupd = g.r.below(5);
